@@ -16,6 +16,10 @@ open Proto Coll
           -> per op <result>#<world>#<spec agrees 0|1>
 -/
 
+/-- the classes of the harness fixtures: 0 = NA, 1 = NB, 2 = NA2 (a subclass of NA), 3 = NC (no `name`) -/
+instance : TyRel := ⟨fun a b => a == b || (a == 2 && b == 0)⟩
+def hasNameTy (t : Nat) : Bool := t != 3
+
 def pObj (s : String) : Obj Nat :=
   match s.splitOn "." with
   | [i, n, t] => { id := pN i, name := pN n, ty := pN t }
@@ -23,8 +27,20 @@ def pObj (s : String) : Obj Nat :=
 
 def pObjs (s : String) : List (Obj Nat) := if s == "-" then [] else (s.splitOn ";").map pObj
 
+/-- constructor request `K:<ty|n>:<n|s|q>:<objs>` -/
+def pCtor (s : String) : Option (Option Nat × CtorArg Nat) :=
+  match s.splitOn ":" with
+  | ["K", t, f, os] =>
+      let ty := if t == "n" then none else some (pN t)
+      let arg : CtorArg Nat := if f == "n" then .none
+        else if f == "s" then (match pObjs os with | o :: _ => .single o | [] => .none)
+        else .seq (pObjs os)
+      some (ty, arg)
+  | _ => none
+
 def pOp (s : String) : Option (Sum Nat (Op Nat)) :=
   match s.splitOn ":" with
+  | ["PB", j] => some (.inr (.popBad (pN j)))
   | ["N", t] => some (.inl (pN t))
   | ["A", j, o] => some (.inr (.addObj (pN j) (pObj o)))
   | ["C", j, k] => some (.inr (.addColl (pN j) (pN k)))
@@ -37,7 +53,7 @@ def pOp (s : String) : Option (Sum Nat (Op Nat)) :=
   | _ => none
 
 def fErr : Err → String
-  | .typeError => "E:TypeError" | .keyError => "E:KeyError"
+  | .typeError => "E:TypeError" | .keyError => "E:KeyError" | .valueError => "E:ValueError"
   | .indexError => "E:IndexError" | .badTarget => "E:BadTarget"
 
 def fRes : Except Err (Out Nat) → String
@@ -72,12 +88,18 @@ def collHist (cp : Nat → C Nat → C Nat) (all : Bool) (ops : List String) : S
     -- in the "last step only" form the earlier steps are replayed without being printed or checked
     -- (every prefix is a request of its own)
     let emit := all || left == 0
-    match pOp s with
-    | none => outs := outs.push "bad-op"
-    | some (.inl ty) =>
+    match pCtor s, pOp s with
+    | some (ty, arg), _ =>
+        match mkNamed hasNameTy w ty arg with
+        | .ok w' =>
+            w := w'
+            if emit then outs := outs.push s!"ok#{fWorld w}"
+        | .error e => if emit then outs := outs.push s!"{fErr e}#{fWorld w}"
+    | none, none => outs := outs.push "bad-op"
+    | none, some (.inl ty) =>
         w := newColl w ty
         if emit then outs := outs.push s!"ok#{fWorld w}"
-    | some (.inr op) =>
+    | none, some (.inr op) =>
         let (w', r) := stepWith cp w op
         if emit then
           -- the specification must agree on the abstract view and the result
@@ -87,6 +109,33 @@ def collHist (cp : Nat → C Nat → C Nat) (all : Bool) (ops : List String) : S
         w := w'
   if all then return String.intercalate " " outs.toList
   else return outs.back?.getD "-"
+
+/-- the world after a history, without printing -/
+def collWorld (ops : List String) : World Nat := Id.run do
+  let mut w : World Nat := { next := 0, colls := [] }
+  for s in ops do
+    match pCtor s, pOp s with
+    | some (ty, arg), _ => match mkNamed hasNameTy w ty arg with | .ok w' => w := w' | .error _ => pure ()
+    | none, some (.inl ty) => w := newColl w ty
+    | none, some (.inr op) => w := (step w op).1
+    | none, none => pure ()
+  return w
+
+def fObjRes : Except Err (Obj Nat) → String | .ok o => toString o.id | .error e => fErr e
+def fNatRes : Except Err Nat → String | .ok i => toString i | .error e => fErr e
+
+/-- positional accessors of every collection after a history: `len`, `c[i]` for `-len-1 ≤ i ≤ len`,
+`c[name]` through the key dispatch, `c.index(o)` for the pool objects 0..7 -/
+def collQuery (ops : List String) : String :=
+  let w := collWorld ops
+  let one (c : C Nat) : String :=
+    let n : Int := c.objects.length
+    let idxs : List Int := (List.range (2 * c.objects.length + 2)).map (fun (k : Nat) => (k : Int) - n - 1)
+    let gi := fListD (fun i => fObjRes (getItem c (.idx i))) idxs
+    let gn := fListD (fun (o : Obj Nat) => fObjRes (getItem c (.name o.name))) c.objects
+    let ix := fListD (fun k => fNatRes (indexOf c ⟨k, 0, 0⟩)) (List.range 8)
+    s!"{len c}/{gi}/{gn}/{ix}"
+  if w.colls.isEmpty then "-" else String.intercalate "|" (w.colls.map one)
 
 /-- python value: f<bits> | i<int>_<bits or -> | o<code> -/
 def pVal (s : String) : PyVal :=
@@ -183,6 +232,7 @@ def answer (line : String) : String :=
   | "coll" :: "a" :: ops => collHist copyOf true ops
   | "coll" :: "l" :: ops => collHist copyOf false ops
   | "collx" :: m :: ops => collHist (copyMode m) true ops
+  | "collq" :: ops => collQuery ops
   | ["hkey", d1, d2] =>
       let a := pVDict d1; let b := pVDict d2
       s!"new:{fB (decide (gridKey id a = gridKey id b))} old:{fB (decide (hashKeyOld id a = hashKeyOld id b))}"
